@@ -193,3 +193,14 @@ for p in list(NOT_APPLICABLE):
         del NOT_APPLICABLE[p]
 for e in ENGINES:
     e['serves_properties'] = sorted(CHECKS)
+
+_c('C09', 'model_checking',
+   'schedule / history search on the real clients against a scripted server, plus exhaustive URL product against a reference builder',
+   'Server push sequences (message bursts of text/JSON/binary, PINGs with arbitrary data, NOOP, unknown type) and application sends (text, bytes, JSON) run as parallel scripts on polling, WebSocket and across the upgrade (probe answered correctly, wrongly, not at all, socket refused) for Client and AsyncClient: all interleavings for every scenario and up to 1 (thorough 2) deviations for the single-push and upgrade scenarios; every execution ends in server silence. Checked: one PONG with identical data per PING, messages dispatched once in arrival order with decoded payloads, sends received once in order with binary frames on WebSocket and base64 in POST bodies, upgrade only through 2probe/3probe/5 and otherwise everything still POSTed, transport error within pingInterval+pingTimeout(+5 s) of the silence. 648 URLs per client against the reference URL builder.',
+   'Contract-level fakes of requests / websocket-client / aiohttp; handler order judged at dispatch.',
+   'DESIGN.md 5 C09')
+for p in list(NOT_APPLICABLE):
+    if p in CHECKS:
+        del NOT_APPLICABLE[p]
+for e in ENGINES:
+    e['serves_properties'] = sorted(CHECKS)
